@@ -151,12 +151,56 @@ Qed.
 
 Definition rule_strict (rl : rule) : bool := match rl with Strict => true | Lenient => false end.
 
-Lemma was_valid_at_eq_spec now r atts rl :
+(* the rule the library applies: valid_at_spec (through int64) or, once F62 is repaired,
+   valid_at_unsigned *)
+Definition lib_rule (strict : bool) (now_ns expired valid_until atts : Z) : bool :=
+  if strict_unsigned then valid_at_unsigned strict now_ns expired valid_until atts
+  else valid_at_spec strict now_ns expired valid_until atts.
+
+Lemma as_timestamp_cap now : 0 <= now < 2 ^ 63 ->
+  as_timestamp (now + seven_days_ns) = now / 1000000 + seven_days_ms.
+Proof.
+  intro H. unfold as_timestamp, to_uint64. rewrite seven_days_ns_ms, Z.div_add by lia.
+  assert (S : seven_days_ms = 604800000) by reflexivity.
+  assert (T : two64 = 2 ^ 64) by (vm_compute; reflexivity).
+  pose proof (Z.div_pos now 1000000 ltac:(lia) ltac:(lia)).
+  assert (now / 1000000 <= now) by (apply Z.div_le_upper_bound; lia).
+  apply Z.mod_small. rewrite T, S. lia.
+Qed.
+
+Lemma strict_check_unsigned_spec now atts vu : 0 <= now < 2 ^ 63 ->
+  strict_check_unsigned now atts vu =
+  negb (vu =? 0) && (atts <=? vu) && (atts <=? now / 1000000 + seven_days_ms).
+Proof.
+  intro H. unfold strict_check_unsigned, public_key_not_valid. rewrite (as_timestamp_cap now H).
+  destruct (vu =? 0); [reflexivity|]. cbn [negb andb].
+  set (c := now / 1000000 + seven_days_ms).
+  destruct (Z.ltb_spec vu c); destruct (Z.leb_spec atts vu); destruct (Z.leb_spec atts c);
+    cbn [andb]; try reflexivity; exfalso; lia.
+Qed.
+
+Lemma was_valid_at_eq_lib now r atts rl : 0 <= now < 2 ^ 63 ->
+  was_valid_at now r atts rl = lib_rule (rule_strict rl) now (pk_expired r) (pk_valid_until r) atts.
+Proof.
+  intro H. unfold was_valid_at, lib_rule, validity_check, valid_at_spec, valid_at_unsigned, public_key_not_expired.
+  destruct strict_unsigned; destruct (negb (pk_expired r =? 0)); try reflexivity;
+    destruct rl; cbn [rule_strict negb]; try reflexivity.
+  - apply strict_check_unsigned_spec. exact H.
+  - apply strict_check_spec.
+Qed.
+
+Lemma was_valid_at_eq_spec now r atts rl : strict_unsigned = false ->
   was_valid_at now r atts rl = valid_at_spec (rule_strict rl) now (pk_expired r) (pk_valid_until r) atts.
 Proof.
-  unfold was_valid_at, valid_at_spec, public_key_not_expired.
+  intro F. unfold was_valid_at, validity_check, valid_at_spec, public_key_not_expired. rewrite F.
   destruct (negb (pk_expired r =? 0)); [reflexivity|].
-  destruct rl; simpl; [|reflexivity]. apply strict_check_spec.
+  destruct rl; cbn [rule_strict negb]; [|reflexivity]. apply strict_check_spec.
+Qed.
+
+Lemma was_valid_at_eq_unsigned now r atts rl : strict_unsigned = true -> 0 <= now < 2 ^ 63 ->
+  was_valid_at now r atts rl = valid_at_unsigned (rule_strict rl) now (pk_expired r) (pk_valid_until r) atts.
+Proof.
+  intros F H. rewrite (was_valid_at_eq_lib now r atts rl H). unfold lib_rule. rewrite F. reflexivity.
 Qed.
 
 (* ---------- the validity rule in the words of the property text ---------- *)
@@ -178,28 +222,6 @@ Proof.
   destruct (Z.ltb_spec u p63) as [L|L]; [rewrite E1 in L; lia|]. rewrite E2. reflexivity.
 Qed.
 
-Lemma was_valid_at_text now r atts rl :
-  0 <= atts < 2 ^ 63 -> 0 <= pk_valid_until r < 2 ^ 63 ->
-  (was_valid_at now r atts rl = true <->
-   (pk_expired r <> 0 /\ atts < pk_expired r) \/
-   (pk_expired r = 0 /\
-    (rl = Lenient \/
-     (pk_valid_until r <> 0 /\ atts <= Z.min (pk_valid_until r) (now / 1000000 + seven_days_ms))))).
-Proof.
-  intros Ha Hv. rewrite was_valid_at_eq_spec. unfold valid_at_spec.
-  rewrite (signed_ms_small atts Ha), (signed_ms_small _ Hv).
-  destruct (Z.eqb_spec (pk_expired r) 0) as [E|E]; cbn [negb].
-  - destruct rl; cbn [rule_strict negb].
-    + rewrite !andb_true_iff, negb_true_iff, Z.eqb_neq, !Z.leb_le, ns_le_ms.
-      split.
-      * intros [[H1 H2] H3]. right. split; [exact E|]. right. split; [exact H1|lia].
-      * intros [[H _]|[_ [H|[H1 H2]]]]; [contradiction|discriminate|]. split; [split|]; [exact H1|lia|lia].
-    + split; [|reflexivity]. intros _. right. split; [exact E|]. left; reflexivity.
-  - rewrite Z.ltb_lt. split.
-    + intro H. left. split; assumption.
-    + intros [[_ H]|[H _]]; [exact H|contradiction].
-Qed.
-
 (* timestamps of 2^63 and above are read as negative instants, hence before everything *)
 Lemma strict_check_wraps now atts vu :
   2 ^ 63 <= atts < 2 ^ 64 -> 0 < vu < 2 ^ 63 -> 0 <= now -> strict_check now atts vu = true.
@@ -209,3 +231,58 @@ Proof.
   rewrite !andb_true_iff, negb_true_iff, Z.eqb_neq, !Z.leb_le.
   assert (seven_days_ms = 604800000) by reflexivity. lia.
 Qed.
+
+(* below 2^63 the library's rule is the rule on the unsigned millisecond values, whichever of
+   the two computations the source has *)
+Lemma valid_at_spec_unsigned_small strict now e vu atts :
+  0 <= atts < 2 ^ 63 -> 0 <= vu < 2 ^ 63 ->
+  valid_at_spec strict now e vu atts = valid_at_unsigned strict now e vu atts.
+Proof.
+  intros Ha Hv. unfold valid_at_spec, valid_at_unsigned.
+  rewrite (signed_ms_small atts Ha), (signed_ms_small _ Hv).
+  destruct (negb (e =? 0)); [reflexivity|].
+  destruct (negb strict); [reflexivity|].
+  f_equal.
+  destruct (Z.leb_spec (atts * 1000000) (now + seven_days_ms * 1000000)) as [L|L];
+    destruct (Z.leb_spec atts (now / 1000000 + seven_days_ms)) as [L2|L2]; try reflexivity.
+  - apply ns_le_ms in L. lia.
+  - exfalso. assert (atts * 1000000 <= now + seven_days_ms * 1000000) by (apply ns_le_ms; lia). lia.
+Qed.
+
+Lemma was_valid_at_unsigned_small now r atts rl :
+  0 <= now < 2 ^ 63 -> 0 <= atts < 2 ^ 63 -> 0 <= pk_valid_until r < 2 ^ 63 ->
+  was_valid_at now r atts rl = valid_at_unsigned (rule_strict rl) now (pk_expired r) (pk_valid_until r) atts.
+Proof.
+  intros Hn Ha Hv. rewrite (was_valid_at_eq_lib now r atts rl Hn). unfold lib_rule.
+  destruct strict_unsigned; [reflexivity|]. apply valid_at_spec_unsigned_small; assumption.
+Qed.
+
+Lemma was_valid_at_text now r atts rl :
+  0 <= now < 2 ^ 63 -> 0 <= atts < 2 ^ 63 -> 0 <= pk_valid_until r < 2 ^ 63 ->
+  (was_valid_at now r atts rl = true <->
+   (pk_expired r <> 0 /\ atts < pk_expired r) \/
+   (pk_expired r = 0 /\
+    (rl = Lenient \/
+     (pk_valid_until r <> 0 /\ atts <= Z.min (pk_valid_until r) (now / 1000000 + seven_days_ms))))).
+Proof.
+  intros Hn Ha Hv. rewrite (was_valid_at_unsigned_small now r atts rl Hn Ha Hv). unfold valid_at_unsigned.
+  destruct (Z.eqb_spec (pk_expired r) 0) as [E|E]; cbn [negb].
+  - destruct rl; cbn [rule_strict negb].
+    + rewrite !andb_true_iff, negb_true_iff, Z.eqb_neq, !Z.leb_le.
+      split.
+      * intros [[H1 H2] H3]. right. split; [exact E|]. right. split; [exact H1|lia].
+      * intros [[H _]|[_ [H|[H1 H2]]]]; [contradiction|discriminate|]. split; [split|]; [exact H1|lia|lia].
+    + split; [|reflexivity]. intros _. right. split; [exact E|]. left; reflexivity.
+  - rewrite Z.ltb_lt. split.
+    + intro H. left. split; assumption.
+    + intros [[_ H]|[H _]]; [exact H|contradiction].
+Qed.
+
+(* F62: at 2^63 the two computations part ways - through int64 a timestamp 292 million years
+   after valid_until_ts passes the strict rule *)
+Lemma strict_rule_wrap_witness :
+  let now := 1700000000000 * 1000000 in
+  strict_check now (2 ^ 63) 1700003600000 = true /\
+  strict_check_unsigned now (2 ^ 63) 1700003600000 = false /\
+  valid_at_unsigned true now 0 1700003600000 (2 ^ 63) = false.
+Proof. vm_compute. repeat split; reflexivity. Qed.
